@@ -678,7 +678,26 @@ fn reorg_below_the_pruning_horizon_matches_a_replay() {
 /// carries an SPV-typed transaction with an output and no inputs must not put that output into the spendable set.
 #[test]
 #[serial_test::serial]
-fn placeholder_typed_transaction_creates_no_output() {
+fn placeholder_typed_transaction_creates_no_output() { privileged_type_scenario(TransactionType::SPV, false, 1) }
+
+/// C01: 256 issuance-typed (257 fee-typed) transactions in one block — the counters the block rules look at are bytes
+#[test]
+#[serial_test::serial]
+fn many_issuance_typed_transactions_create_no_output() { privileged_type_scenario(TransactionType::Issuance, false, 256) }
+#[test]
+#[serial_test::serial]
+fn many_fee_typed_transactions_create_no_output() { privileged_type_scenario(TransactionType::Fee, false, 257) }
+
+/// C01 / C02: the same for a Fee-typed transaction that the block's own payout computation does not produce (no golden
+/// ticket in the block, so nothing is paid out), and for a second Fee-typed transaction next to the genuine one
+#[test]
+#[serial_test::serial]
+fn unexpected_fee_typed_transaction_creates_no_output() { privileged_type_scenario(TransactionType::Fee, false, 1) }
+#[test]
+#[serial_test::serial]
+fn second_fee_typed_transaction_creates_no_output() { privileged_type_scenario(TransactionType::Fee, true, 1) }
+
+fn privileged_type_scenario(ttype: TransactionType, with_ticket: bool, copies: usize) {
     let (tx_done, rx_done) = std::sync::mpsc::channel::<Option<String>>();
     std::thread::spawn(move || {
         let rt = tokio::runtime::Builder::new_current_thread().enable_all().build().unwrap();
@@ -688,28 +707,31 @@ fn placeholder_typed_transaction_creates_no_output() {
             t.initialize(100, 200_000_000_000_000).await;
             let (b1, ts) = { let bc = t.blockchain_lock.read().await; let b = bc.get_latest_block().unwrap(); (b.hash, b.timestamp) };
             let (pk, sk) = { let w = t.wallet_lock.read().await; (w.public_key, w.private_key) };
-            let mut b2 = t.create_block(b1, ts + 120000, 1, 0, 0, true).await;
+            let mut b2 = t.create_block(b1, ts + 120000, 1, 0, 0, if ttype == TransactionType::SPV { true } else { with_ticket }).await;
             let mut minted = Transaction::default();
-            minted.transaction_type = TransactionType::SPV;
+            minted.transaction_type = ttype;
             let mut o = Slip::default(); o.public_key = pk; o.amount = 1_000_000; minted.add_to_slip(o);
             minted.sign(&sk);
-            b2.transactions.push(minted);
+            for extra in 1..copies { let mut m = minted.clone(); m.timestamp = extra as u64; m.sign(&sk); b2.transactions.push(m); }
+            if ttype == TransactionType::Fee && with_ticket { b2.transactions.insert(0, minted); } else { b2.transactions.push(minted); }
+            let minted_at = if ttype == TransactionType::Fee && with_ticket { 0 } else { b2.transactions.len() as u64 - 1 };
             b2.merkle_root = [0; 32];
             b2.generate().unwrap();
             b2.sign(&sk);
             b2.generate().unwrap();
             let h2 = b2.hash;
             let n_tx = b2.transactions.len() as u64;
+            let types: Vec<String> = b2.transactions.iter().map(|tx| format!("{:?}", tx.transaction_type)).collect();
             let before = { let bc = t.blockchain_lock.read().await; bc.utxoset.iter().filter(|(_, v)| **v).count() };
             let _ = t.add_block(b2).await;
             let bc = t.blockchain_lock.read().await;
             let accepted = bc.get_latest_block_hash() == h2;
-            let mut probe = Slip::default(); probe.public_key = pk; probe.amount = 1_000_000; probe.block_id = 2; probe.tx_ordinal = n_tx - 1; probe.slip_index = 0;
+            let mut probe = Slip::default(); probe.public_key = pk; probe.amount = 1_000_000; probe.block_id = 2; probe.tx_ordinal = minted_at; probe.slip_index = 0; let _ = n_tx;
             probe.generate_utxoset_key();
             let present = bc.utxoset.get(&probe.utxoset_key).copied();
             let after = bc.utxoset.iter().filter(|(_, v)| **v).count();
             if accepted && present == Some(true) {
-                let _ = tx_done.send(Some(format!("a block carrying an SPV-typed transaction with no inputs and a 1000000-nolan output became the tip and the output is spendable (spendable outputs {} → {})", before, after)));
+                let _ = tx_done.send(Some(format!("a block carrying {} {:?}-typed transaction(s) with no inputs and a 1000000-nolan output each (the block's other transactions: {:?}) became the tip and the output is spendable (spendable outputs {} → {})", copies, ttype, types.iter().filter(|x| **x != format!("{:?}", ttype)).collect::<Vec<_>>(), before, after)));
                 return;
             }
             if std::env::var("VERIF_TRACE").is_ok() { println!("TRACE accepted {} output {:?} spendable {} -> {}", accepted, present, before, after); }
@@ -719,6 +741,6 @@ fn placeholder_typed_transaction_creates_no_output() {
     match rx_done.recv_timeout(std::time::Duration::from_secs(120)) {
         Ok(None) => {}
         Ok(Some(w)) => witness(w),
-        Err(_) => { use std::io::Write; let _ = writeln!(std::io::stderr(), "WITNESS: adding a block that carries an SPV-typed transaction with an output did not return (the node aborted)"); panic!("scenario did not finish"); }
+        Err(_) => { use std::io::Write; let _ = writeln!(std::io::stderr(), "WITNESS: adding a block that carries {} {:?}-typed transaction(s) with no inputs and a 1000000-nolan output each did not return (the node aborted)", copies, ttype); panic!("scenario did not finish"); }
     }
 }
